@@ -55,11 +55,23 @@ Inductive route :=
 | RFImplies (a b : nat)
 | RFElement (arr : list nat) (idx : nat)               (* returns the value handle *)
 | RBool2Int (b : nat)                                   (* returns a handle *)
-| RCumulative (starts : list nat) (durs dems : list Z) (cap : Z).
+| RCumulative (starts : list nat) (durs dems : list Z) (cap : Z)
+(* api/array.rs: array_int_minimum / array_int_maximum = self.min(array) / self.max(array) *)
+| RArrMin (xs : list nat) | RArrMax (xs : list nat)
+(* api/arithmetic.rs: sum_iter over an iterator of views (Model::sum(xs) = sum_iter(xs.iter().copied())) *)
+| RSumIter (xs : list opnd)
+(* api/global.rs: element_2d / element_3d (linearised index + element), table_2d / table_3d (one Table per row) *)
+| RElement2D (mat : list (list nat)) (ri ci vl : nat)
+| RElement3D (cube : list (list (list nat))) (di ri ci vl : nat)
+| RTable2D (mat : list (list nat)) (tuples : list (list Z))
+| RTable3D (cube : list (list (list nat))) (tuples : list (list Z)).
 
 Inductive rstmt :=
 | SB (s : stmt)            (* declarations, m.new, lin_eq/lin_le/lin_ne (= bool_lin_eq/le/ne), add/sub/mul on variables *)
-| SCall (r : route).
+| SCall (r : route)
+(* model/factory.rs array factories: ints (dims = [n]), ints_2d ([rows; cols]), ints_3d ([depth; rows; cols]) and
+   bools / bools_2d / bools_3d (= the same with bounds 0, 1).  Every handle is handed to the program, row-major. *)
+| SArr (dims : list nat) (lo hi : Z).
 
 (* does the call hand a variable back to the user? *)
 Definition returns (r : route) : bool :=
@@ -67,6 +79,7 @@ Definition returns (r : route) : bool :=
   | RAdd _ _ | RSub _ _ | RMul _ _ | RMod _ _ | RAbs _ | RMin _ | RMax _ | RSum _
   | RBoolAnd _ | RBoolOr _ | RBoolNot _ | RBoolXor _ _
   | RFAnd _ _ | RFOr _ _ | RFNot _ | RFXor _ _ | RFElement _ _ | RBool2Int _ => true
+  | RArrMin _ | RArrMax _ | RSumIter _ => true
   | _ => false
   end.
 
@@ -185,6 +198,12 @@ Fixpoint var_bounds (s : store) (xs : list nat) : option (list (Z * Z)) :=
   | x :: r => do b <- obounds s (OV x); do br <- var_bounds s r; Some (b :: br)
   end.
 
+Fixpoint opnd_bounds (s : store) (xs : list opnd) : option (list (Z * Z)) :=
+  match xs with
+  | [] => Some []
+  | x :: r => do b <- obounds s x; do br <- opnd_bounds s r; Some (b :: br)
+  end.
+
 (* ---- result bounds (api/arithmetic.rs) ---- *)
 Definition add_bounds (bx by_ : Z * Z) : Z * Z := (fst bx + fst by_, snd bx + snd by_).
 Definition sub_bounds (bx by_ : Z * Z) : Z * Z := (fst bx - snd by_, snd bx - fst by_).
@@ -300,6 +319,47 @@ Definition ret_pair (p : nat * rlst) (m : rstate) : rstate := give (fst p) (with
 Definition bin_bounds (f : Z * Z -> Z * Z -> Z * Z) (s : store) (x y : opnd) : option (Z * Z) :=
   do bx <- obounds s x; do by_ <- obounds s y; Some (f bx by_).
 
+(* m.new(c) with the operands of c already resolved to VarIds: Lower.post on the embedded state
+   (Lower's functions never read the propagator list) *)
+Definition post_base (c : cons) (m : rstate) : rstate :=
+  let m0 := mkms (fst (rst m), []) [] (ruser m) (rpanic m) in
+  let m1 := post c m0 in
+  mkrs (fst (mst m1), snd (rst m) ++ map PB (snd (mst m1)))
+       (rpend m ++ map CB (mpend m1)) (muser m1) (mpanic m1) (rverr m) (rcallerr m).
+
+(* Model::element_2d / element_3d, the common tail: computed_idx = self.int(0, flat.len() - 1) (kept by the
+   call, not handed out); self.new(linear_idx_expr.eq(computed_idx)) — functions::add / functions::mul build
+   the raw Add / Mul nodes, no folding —; the LinearConstraint pushed to pending_lp_constraints is read only by
+   the root LP step (outside this model, D10); props.element(flat, computed_idx, value).
+   The Element propagator is pushed NOW, the index equation is a pending AST lowered by prepare_for_search. *)
+Definition call_element_nd (flat : list nat) (idx_expr : expr) (vl : nat) (m : rstate) : rstate :=
+  let (ci, st) := rnew_var (drange 0 (Z.of_nat (length flat) - 1)) (rst m) in
+  let m := post_base (CBin idx_expr OEq (EVar ci)) (with_st m st) in
+  with_st m (rpush (PElement flat ci vl) (rst m)).
+
+(* `cols` of element_2d: matrix[0].len(), 0 for an empty matrix *)
+Definition mat_cols (mat : list (list nat)) : nat := match mat with [] => 0%nat | r0 :: _ => length r0 end.
+(* `rows`, `cols` of element_3d: cube[0].len() and cube[0][0].len() *)
+Definition cube_rows (cube : list (list (list nat))) : nat := match cube with [] => 0%nat | m0 :: _ => length m0 end.
+Definition cube_cols (cube : list (list (list nat))) : nat :=
+  match cube with (r0 :: _) :: _ => length r0 | _ => 0%nat end.
+Definition idx2 (ri ci : nat) (cols : nat) : expr := EAdd (EMul (EVar ri) (EVal (Z.of_nat cols))) (EVar ci).
+Definition idx3 (di ri ci : nat) (rows cols : nat) : expr :=
+  EAdd (EMul (EVar di) (EVal (Z.of_nat (rows * cols)))) (EAdd (EMul (EVar ri) (EVal (Z.of_nat cols))) (EVar ci)).
+
+(* Model::table_2d / table_3d before the repair e2596cd: props.table_constraint per row; Table::new
+   debug_assert!(every tuple has the arity of vars) — None = the assertion fired *)
+Fixpoint st_tables (rows : list (list nat)) (ts : list (list Z)) (st : rlst) : option rlst :=
+  match rows with
+  | [] => Some st
+  | row :: r => if table_okb row ts then st_tables r ts (rpush (PTable row ts) st) else None
+  end.
+Fixpoint st_tables3 (cube : list (list (list nat))) (ts : list (list Z)) (st : rlst) : option rlst :=
+  match cube with
+  | [] => Some st
+  | mat :: r => do st <- st_tables mat ts st; st_tables3 r ts st
+  end.
+
 (* the call, arguments already resolved to VarIds *)
 Definition call (r : route) (m : rstate) : rstate :=
   let s := fst (rst m) in
@@ -366,6 +426,32 @@ Definition call (r : route) (m : rstate) : rstate :=
       | None => panic m
       end
     else m
+  | RArrMin xs =>                                        (* self.min(array) *)
+    match xs with
+    | [] => callerr m
+    | _ => ret_result (do bs <- var_bounds s xs; match bs with b0 :: br => Some (min_bounds b0 br) | [] => None end) (PMin xs) m
+    end
+  | RArrMax xs =>                                        (* self.max(array) *)
+    match xs with
+    | [] => callerr m
+    | _ => ret_result (do bs <- var_bounds s xs; match bs with b0 :: br => Some (max_bounds b0 br) | [] => None end) (PMax xs) m
+    end
+  | RSumIter xs => ret_result (do bs <- opnd_bounds s xs; Some (sum_bounds_l bs)) (PSum (map oview xs)) m
+  | RElement2D mat ri ci vl =>
+    let flat := concat mat in
+    let cols := mat_cols mat in
+    if Nat.eqb cols 0 then with_st m (rpush (PElement flat ri vl) (rst m))     (* "just create a dummy constraint" *)
+    else call_element_nd flat (idx2 ri ci cols) vl m
+  | RElement3D cube di ri ci vl =>
+    let flat := concat (concat cube) in
+    let rows := cube_rows cube in
+    let cols := cube_cols cube in
+    if Nat.eqb rows 0 || Nat.eqb cols 0 then with_st m (rpush (PElement flat di vl) (rst m))
+    else call_element_nd flat (idx3 di ri ci rows cols) vl m
+  | RTable2D mat ts =>
+    match st_tables mat ts (rst m) with Some st => with_st m st | None => panic m end
+  | RTable3D cube ts =>
+    match st_tables3 cube ts (rst m) with Some st => with_st m st | None => panic m end
   end.
 
 (* user ordinals -> VarIds *)
@@ -394,6 +480,29 @@ Definition rn_route (f : nat -> nat) (r : route) : route :=
   | RFElement arr i => RFElement (l arr) (f i)
   | RBool2Int b => RBool2Int (f b)
   | RCumulative st du de cap => RCumulative (l st) du de cap
+  | RArrMin xs => RArrMin (l xs) | RArrMax xs => RArrMax (l xs)
+  | RSumIter xs => RSumIter (map (rn_opnd f) xs)
+  | RElement2D mat ri ci vl => RElement2D (map l mat) (f ri) (f ci) (f vl)
+  | RElement3D cube di ri ci vl => RElement3D (map (map l) cube) (f di) (f ri) (f ci) (f vl)
+  | RTable2D mat ts => RTable2D (map l mat) ts
+  | RTable3D cube ts => RTable3D (map (map l) cube) ts
+  end.
+
+(* ---- array factories (model/factory.rs) ----
+   ints(n, min, max) = int_vars(n, min, max).collect(): new_vars orders the bounds
+   (`if min < max { (min, max) } else { (max, min) }` — unlike Model::int, which creates the empty domain
+   for min > max) and creates n variables; ints_2d = rows x ints(cols, ..); ints_3d = depth x ints_2d;
+   bools(n) = int_vars(n, 0, 1), bools_2d / bools_3d likewise. *)
+Definition declare_r (d : dom) (m : rstate) : rstate :=
+  let (v, st) := rnew_var d (rst m) in give v (with_st m st).
+Fixpoint repeat_m (n : nat) (f : rstate -> rstate) (m : rstate) : rstate :=
+  match n with O => m | S k => repeat_m k f (f m) end.
+Definition arr_dom (lo hi : Z) : dom := if lo <? hi then drange lo hi else drange hi lo.
+Fixpoint exec_arr (dims : list nat) (lo hi : Z) (m : rstate) : rstate :=
+  match dims with
+  | [] => declare_r (arr_dom lo hi) m
+  | [n] => repeat_m n (declare_r (arr_dom lo hi)) m
+  | n :: r => repeat_m n (exec_arr r lo hi) m
   end.
 
 (* a panic unwinds and an Err returned by a call ends the program: later statements do not run *)
@@ -402,6 +511,7 @@ Definition rexec (s : rstmt) (m : rstate) : rstate :=
   match s with
   | SB b => exec_base b m
   | SCall r => call (rn_route (ruv m) r) m
+  | SArr dims lo hi => exec_arr dims lo hi m
   end.
 Definition rbuild (prog : list rstmt) : rstate := fold_left (fun m s => rexec s m) prog rs0.
 
@@ -524,8 +634,17 @@ Definition route_fun (r : route) (a : asg) : option Z :=
   | RFElement arr i =>
     if 0 <=? a i then match nth_error arr (Z.to_nat (a i)) with Some x => Some (a x) | None => None end else None
   | RBool2Int b => Some (a b)
+  | RArrMin (v0 :: rest) => Some (list_min (a v0) (map a rest))
+  | RArrMax (v0 :: rest) => Some (list_max (a v0) (map a rest))
+  | RSumIter xs => Some (fold_right (fun x acc => osem x a + acc) 0 xs)
   | _ => None
   end.
+
+(* matrix[row][col] / cube[depth][row][col] with 0-based indices; None = some index is out of range *)
+Definition nth_z {A} (l : list A) (i : Z) : option A := if 0 <=? i then nth_error l (Z.to_nat i) else None.
+Definition mat_at (mat : list (list nat)) (r c : Z) : option nat := do row <- nth_z mat r; nth_z row c.
+Definition cube_at (cube : list (list (list nat))) (d r c : Z) : option nat := do mat <- nth_z cube d; mat_at mat r c.
+Definition row_in_table (ts : list (list Z)) (a : asg) (row : list nat) : bool := existsb (fun tp => tuple_eq row tp a) ts.
 
 Definition route_sem (r : route) (res : nat) (a : asg) : bool :=
   if returns r then match route_fun r a with Some v => a res =? v | None => false end
@@ -555,6 +674,12 @@ Definition route_sem (r : route) (res : nat) (a : asg) : bool :=
     else a b =? 0
   | RCumulative st du de cap =>
     Nat.eqb (length st) (length du) && Nat.eqb (length st) (length de) && cum_sem st du de cap a
+  | RElement2D mat ri ci vl =>
+    match mat_at mat (a ri) (a ci) with Some x => a x =? a vl | None => false end
+  | RElement3D cube di ri ci vl =>
+    match cube_at cube (a di) (a ri) (a ci) with Some x => a x =? a vl | None => false end
+  | RTable2D mat ts => forallb (row_in_table ts a) mat
+  | RTable3D cube ts => forallb (forallb (row_in_table ts a)) cube
   | _ => false
   end.
 
@@ -607,6 +732,43 @@ Definition bool_args (r : route) : list nat :=
 Definition kf_nonbool_arg (r : route) (s : store) : bool :=
   negb (forallb (fun x => is_bool_dom (sget s x)) (bool_args r)).
 
+(* element_2d / element_3d constrain only the LINEARISED index row * cols + col (resp. depth * rows * cols +
+   row * cols + col) to 0 .. flat.len() - 1; the individual indices are not constrained.  A column index
+   outside 0 .. cols - 1 (3-D: also a row index outside 0 .. rows - 1) therefore addresses a cell of ANOTHER
+   row (matrix [[p, q], [r, s]], row 0, col 2 reads r; row 1, col -1 reads q); on a ragged matrix / cube the
+   linearisation uses the first row's length and reads the wrong cell even for valid indices. *)
+Definition rect (mat : list (list nat)) : bool := forallb (fun row => Nat.eqb (length row) (mat_cols mat)) mat.
+Definition rect3 (cube : list (list (list nat))) : bool :=
+  forallb (fun mat => Nat.eqb (length mat) (cube_rows cube) && forallb (fun row => Nat.eqb (length row) (cube_cols cube)) mat) cube.
+Definition idx_in (n : nat) (d : dom) : bool := forallb (fun v => (0 <=? v) && (v <? Z.of_nat n)) d.
+Definition kf_element_nd_index (r : route) (s : store) : bool :=
+  match r with
+  | RElement2D mat _ ci _ =>
+    negb (Nat.eqb (mat_cols mat) 0) && negb (rect mat && idx_in (mat_cols mat) (sget s ci))
+  | RElement3D cube _ ri ci _ =>
+    negb (Nat.eqb (cube_rows cube) 0 || Nat.eqb (cube_cols cube) 0) &&
+    negb (rect3 cube && idx_in (cube_cols cube) (sget s ci) && idx_in (cube_rows cube) (sget s ri))
+  | _ => false
+  end.
+(* the empty-matrix arm ("just create a dummy constraint") posts element([], row_idx, value): never satisfiable,
+   as documented (no cell exists); a matrix whose FIRST row is empty but a later one is not takes the same arm with
+   a non-empty flat array indexed by the ROW index *)
+Definition kf_element_nd_dummy (r : route) : bool :=
+  match r with
+  | RElement2D mat _ _ _ => Nat.eqb (mat_cols mat) 0 && negb (Nat.eqb (length (concat mat)) 0)
+  | RElement3D cube _ _ _ _ =>
+    (Nat.eqb (cube_rows cube) 0 || Nat.eqb (cube_cols cube) 0) && negb (Nat.eqb (length (concat (concat cube))) 0)
+  | _ => false
+  end.
+(* table_2d / table_3d call props.table_constraint directly: a tuple of the wrong arity is dropped silently
+   (Table::new since e2596cd; a debug assertion before), no validation error is recorded — unlike Model::table *)
+Definition kf_table_nd_arity (r : route) : bool :=
+  match r with
+  | RTable2D mat ts => negb (forallb (fun row => table_okb row ts) mat)
+  | RTable3D cube ts => negb (forallb (forallb (fun row => table_okb row ts)) cube)
+  | _ => false
+  end.
+
 (* ------------------------------------------------------------------------------------------ *)
 (* Behaviour of the CURRENT tree, i.e. after the repairs a88ba19 (implies / cumulative), b9ad7d3
    (functions::element bounds), e45322d (length-mismatched reified linear postings force b = 0) and e2596cd
@@ -645,6 +807,8 @@ Definition felement_bounds_fixed (s : store) (arr : list nat) : option (Z * Z) :
   | [] => Some (aux_lo, aux_hi)
   | b0 :: br => Some (list_min (fst b0) (map fst br), list_max (snd b0) (map snd br))
   end.
+Definition st_tables_fixed (rows : list (list nat)) (ts : list (list Z)) (st : rlst) : rlst :=
+  fold_left (fun st row => rpush (PTable row (filter (fun tp => Nat.eqb (length tp) (length row)) ts)) st) rows st.
 Definition call_fixed (r : route) (m : rstate) : rstate :=
   match r with
   | RFImplies a b =>
@@ -667,6 +831,10 @@ Definition call_fixed (r : route) (m : rstate) : rstate :=
        InvalidConstraint validation error (returned by every solving call since 596c327) *)
     if table_okb xs ts then call r m
     else verr (with_st m (rpush (PTable xs (filter (fun tp => Nat.eqb (length tp) (length xs)) ts)) (rst m)))
+  (* table_2d / table_3d -> props.table_constraint -> Table::new (e2596cd) keeps the tuples of the right arity;
+     nothing is recorded *)
+  | RTable2D mat ts => with_st m (st_tables_fixed mat ts (rst m))
+  | RTable3D cube ts => with_st m (fold_left (fun st mat => st_tables_fixed mat ts st) cube (rst m))
   | _ => call r m
   end.
 Definition rexec_fixed (s : rstmt) (m : rstate) : rstate :=
@@ -674,5 +842,44 @@ Definition rexec_fixed (s : rstmt) (m : rstate) : rstate :=
   match s with
   | SB b => exec_base b m
   | SCall r => call_fixed (rn_route (ruv m) r) m
+  | SArr dims lo hi => exec_arr dims lo hi m
   end.
 Definition rbuild_fixed (prog : list rstmt) : rstate := fold_left (fun m s => rexec_fixed s m) prog rs0.
+
+(* ------------------------------------------------------------------------------------------ *)
+(* Behaviour AFTER the proposed repairs fixes/routes_ext/routes_table_nd_arity.patch and
+   fixes/routes_ext/routes_element_nd_index.patch (NOT the current tree; driver switch SELEN_ROUTES_EXT_FIXED=1):
+   table_2d / table_3d go through Model::table (arity validation as there); element_2d / element_3d record an
+   InvalidConstraint validation error for a ragged matrix / cube and bound the column index (3-D: row and column
+   index) to its own dimension: greater_than_or_equals(idx, 0), less_than_or_equals(idx, n - 1) before the index
+   equation and the Element propagator. *)
+Definition idx_bounds (i : nat) (n : nat) (st : rlst) : rlst :=
+  rpush (PB (PLeq (VVar i) (VConst (Z.of_nat n - 1)))) (rpush (PB (PLeq (VConst 0) (VVar i))) st).
+Definition call_ext_fixed (r : route) (m : rstate) : rstate :=
+  match r with
+  | RTable2D mat ts => fold_left (fun m row => call_fixed (RTable row ts) m) mat m
+  | RTable3D cube ts => fold_left (fun m mat => fold_left (fun m row => call_fixed (RTable row ts) m) mat m) cube m
+  | RElement2D mat ri ci vl =>
+    let m := if rect mat then m else verr m in
+    let flat := concat mat in
+    let cols := mat_cols mat in
+    if Nat.eqb cols 0 then with_st m (rpush (PElement flat ri vl) (rst m))
+    else call_element_nd flat (idx2 ri ci cols) vl (with_st m (idx_bounds ci cols (rst m)))
+  | RElement3D cube di ri ci vl =>
+    let m := if rect3 cube then m else verr m in
+    let flat := concat (concat cube) in
+    let rows := cube_rows cube in
+    let cols := cube_cols cube in
+    if Nat.eqb rows 0 || Nat.eqb cols 0 then with_st m (rpush (PElement flat di vl) (rst m))
+    else call_element_nd flat (idx3 di ri ci rows cols) vl (with_st m (idx_bounds ci cols (idx_bounds ri rows (rst m))))
+  | _ => call_fixed r m
+  end.
+Definition rexec_ext_fixed (s : rstmt) (m : rstate) : rstate :=
+  if rpanic m || rcallerr m then m else
+  match s with
+  | SB b => exec_base b m
+  | SCall r => call_ext_fixed (rn_route (ruv m) r) m
+  | SArr dims lo hi => exec_arr dims lo hi m
+  end.
+Definition rbuild_ext_fixed (prog : list rstmt) : rstate := fold_left (fun m s => rexec_ext_fixed s m) prog rs0.
+
